@@ -166,6 +166,43 @@ func runC19(c *Ctx) {
 			c.undecided("C19-R7: no test of the fsnotify event's Op found in watchForChanges")
 		}
 	}
+	// what the debounce timer runs is the reload, unconditionally: a callback that may return without reloading (a
+	// sequence-number or "already pending" test) drops the edit whose event armed it
+	if wf := c.fn(glyphCmd, "hotReloadManager.watchForChanges"); wf != nil {
+		n := 0
+		eachInstr(wf, func(_ *ssa.BasicBlock, _ int, ins ssa.Instruction) {
+			call, ok := ins.(*ssa.Call)
+			if !ok || callName(call) != "time.AfterFunc" || len(call.Call.Args) < 2 {
+				return
+			}
+			n++
+			isReload := func(x ssa.Instruction) bool {
+				ci, ok := x.(ssa.CallInstruction)
+				return ok && strings.HasSuffix(callName(ci), "hotReloadManager.reload")
+			}
+			okCB := false
+			detail := "the function handed to time.AfterFunc could not be resolved"
+			var path []*ssa.BasicBlock
+			switch f := call.Call.Args[1].(type) {
+			case *ssa.MakeClosure:
+				cf := f.Fn.(*ssa.Function)
+				if strings.HasSuffix(cf.Name(), "reload$bound") || strings.Contains(cf.Name(), "reload$bound") {
+					okCB = true
+					break
+				}
+				q := &pathQuery{fn: cf, target: isReturn, stop: isReload}
+				hit, p := q.fromEntry()
+				okCB, path = hit == nil, p
+				detail = "the debounce timer's callback can return without calling reload(): the event that armed this timer - possibly the last event of a save - does not lead to a reload, and nothing re-arms"
+			case *ssa.Function:
+				q := &pathQuery{fn: f, target: isReturn, stop: isReload}
+				hit, p := q.fromEntry()
+				okCB, path = hit == nil || strings.HasSuffix(f.Name(), "reload"), p
+			}
+			c.ob("C19-R7", fnKey(wf)+"#debounce-callback-always-reloads-"+itoa(n), call.Pos(), okCB, detail, c.blockPath(path)...)
+		})
+	}
+
 	c.rule("C19-R6", "PAIR: every Lock/RLock in cmd/glyph and pkg/hotreload is released on every path to a return: a failed reload cannot leave the manager's mutex held and block all later reloads; REACQ: no method calls, while it holds its receiver's mutex, a method of the same receiver that acquires that mutex again (sync mutexes are not re-entrant; a second RLock blocks once a writer waits)")
 	c.Sites["C19-R6#acquire-sites"] = lockReleaseAudit(c, "C19-R6", []string{glyphCmd, "pkg/hotreload"})
 	c.floor("C19-R6", 6)
